@@ -165,7 +165,7 @@ crd write conv --command cmt`,
 				slog.Debug("modifier", slog.String("command", c))
 				return input.NewChordMetaTextMofidier(".", " on "), true
 			default:
-				return nil, true
+				return nil, false
 			}
 		}
 		modifiers := []input.Modifier{}
